@@ -309,7 +309,38 @@ def interp_space(syms, limit=4096):
     return n
 
 
-def interpretations(syms, rng, n_samples=32, limit=4096, seed=0):
+def constant_pool(*bps):
+    """Constants occurring in the blueprints, by sort (used to aim sampled
+    interpretations at the values the formulas distinguish)."""
+    pool = {}
+    seen = set()
+
+    def go(b):
+        if id(b) in seen:
+            return
+        seen.add(id(b))
+        op, pl, kids = b
+        if op == 'int':
+            for v in (pl, pl + 1, pl - 1):
+                pool.setdefault(B.INT, set()).add(v)
+            pool.setdefault(B.REAL, set()).add(Fraction(pl))
+        elif op == 'real':
+            pool.setdefault(B.REAL, set()).add(pl)
+            pool.setdefault(B.REAL, set()).add(Fraction(float(pl)))
+            if pl.denominator == 1:
+                pool.setdefault(B.INT, set()).add(int(pl))
+        elif op == 'str':
+            pool.setdefault(B.STRING, set()).add(pl)
+        elif op == 'bv':
+            pool.setdefault(B.BV(pl[1]), set()).add(pl[0])
+        for c in kids:
+            go(c)
+    for b in bps:
+        go(b)
+    return dict((t, sorted(vs, key=vrepr)) for t, vs in pool.items())
+
+
+def interpretations(syms, rng, n_samples=32, limit=4096, seed=0, pool=None):
     """Yield (I, exhaustive) dictionaries name -> value for the symbols.
 
     All of them if the joint space is <= limit, else corner-first samples."""
@@ -340,6 +371,19 @@ def interpretations(syms, rng, n_samples=32, limit=4096, seed=0):
             return cv[r % len(cv)]
         yield mk(ch)
         count += 1
+    # constant-guided rounds: symbols take the constants of the formulas
+    if pool:
+        rounds = max(len(v) for v in pool.values())
+        for r in range(min(rounds, max(4, n_samples // 3))):
+            def ch3(name, t, r=r):
+                if name == 'seed':
+                    return seed * 1000 + 500 + r
+                vs = pool.get(t)
+                if vs:
+                    return vs[(r + (zlib.crc32(name.encode()) % 3)) % len(vs)]
+                return rand_value(t, rng)
+            yield mk(ch3)
+            count += 1
     while count < n_samples:
         c = count
 
